@@ -205,6 +205,9 @@ def _pair_var_hook(ev, r):
         la = ev.length(a, st) if a is not None else None
         lb = ev.length(b, st) if b is not None else None
         ok = la is not None and lb is not None and st.facts.prove_eq(la, lb)
+        prev = ev.oblig.get(('hook', id(loop)))
+        if prev is not None and not prev[2]:
+            ok = False      # one path through the loop body that breaks the pair is enough
         ev.oblig[('hook', id(loop))] = (loop, 'inv', ok,
                                         'after the loop body %s[0] and %s[1] have equal length' % (v, v))
     return hook
